@@ -39,6 +39,7 @@ type (
 		waiting     bool
 		closing     bool
 		inbound     []byte
+		done        chan struct{} // closed when the connection's event loop has ended
 	}
 )
 
@@ -48,6 +49,7 @@ func newClientCxn(l lane.Lane, cxn net.Conn, dispatcher *cmdDispatcher) *clientC
 		started:     time.Now(),
 		socketState: csNone,
 		csceCh:      make(chan *clientStateEvent, 3),
+		done:        make(chan struct{}),
 	}
 
 	cc.cs = newClientState(l, cc, dispatcher)
@@ -138,6 +140,8 @@ func waitForAllCxnClose() {
 }
 
 func (cc *clientCxn) run() {
+	defer close(cc.done)
+
 	for {
 		event := <-cc.csceCh
 
